@@ -293,6 +293,10 @@ func (matrix *DenseReal32Matrix) AsVector() Vector {
   return matrix.AsDenseReal32Vector()
 }
 func (matrix *DenseReal32Matrix) storageLocation() uintptr {
+  if len(matrix.values) == 0 {
+    // no storage to point into: the matrix header identifies an empty matrix
+    return uintptr(unsafe.Pointer(matrix))
+  }
   return uintptr(unsafe.Pointer(&matrix.values[0]))
 }
 /* const interface
